@@ -4,6 +4,7 @@ go 1.26
 
 require (
 	github.com/anishathalye/porcupine v1.3.0
+	github.com/decred/dcrd/dcrec/secp256k1/v4 v4.4.1
 	github.com/nspcc-dev/dbft v0.4.0
 	github.com/nspcc-dev/neo-go v0.121.0
 	go.uber.org/zap v1.27.1
@@ -19,7 +20,6 @@ require (
 	github.com/cpuguy83/go-md2man/v2 v2.0.7 // indirect
 	github.com/davecgh/go-spew v1.1.1 // indirect
 	github.com/decred/dcrd/crypto/ripemd160 v1.0.2 // indirect
-	github.com/decred/dcrd/dcrec/secp256k1/v4 v4.4.1 // indirect
 	github.com/golang/snappy v0.0.1 // indirect
 	github.com/google/uuid v1.6.0 // indirect
 	github.com/gorilla/websocket v1.5.3 // indirect
